@@ -11,6 +11,18 @@ package hydra
 // Unsubscribing removes at most ONE subscription -- the leaving client's -- and never the swamp's whole
 // subscriber table (other subscribers of the same swamp keep receiving its events); no subscription is added.
 //@ trusted func (github.com/google/uuid.UUID).String(u) (s)
+// SubscribeToSwampEvents (property C19: a subscribed client receives every event): the swamp's subscriber
+// table is obtained with ONE atomic LoadOrStore and never stored over -- a Load followed by a Store of a
+// fresh table lets two first subscribers that arrive together each create a table, the later Store
+// dropping the client registered in the earlier one (fixed defect) -- and the client's callback is
+// registered in exactly the table that lookup returned, under the client's id.
+//@ trusted func (github.com/hydraide/hydraide/app/core/hydra/swamp.Swamp).StartSendingEvents(s)
+//@ func (*hydra).SubscribeToSwampEvents(h, clientID, swampName, fn) (err)
+//@   property C19
+//@   modifies *
+//@   before Map.Store [the_client_is_registered_in_the_table_the_atomic_lookup_returned] calls("Map.LoadOrStore") == old(calls("Map.LoadOrStore")) + 1 && refid(arg0) == ipay(lastret("Map.LoadOrStore"))
+//@   ensures[refused_after_shutdown] old(h.shuttingDown) == 1 ==> err != nil && calls("Map.Store") == old(calls("Map.Store")) && calls("Map.LoadOrStore") == old(calls("Map.LoadOrStore"))
+//@   ensures[the_swamps_table_is_obtained_atomically_and_never_stored_over] old(h.shuttingDown) != 1 ==> err == nil && calls("Map.LoadOrStore") == old(calls("Map.LoadOrStore")) + 1 && calls("Map.Store") == old(calls("Map.Store")) + 1
 //@ func (*hydra).UnsubscribeFromSwampEvents(h, clientID, swampName) (err)
 //@   property C19
 //@   modifies *
